@@ -124,6 +124,23 @@ pub fn run_c09(out: &mut Out, rng: &mut Rng, tier: Tier) -> String {
     }
     histories(out, rng, n, len);
     crate::c08::reshape_huge_zst(out);
+    for &(nr, nc) in &LARGE[..3] {
+        for order in ORDERS {
+            out.case(&format!("large reshape / resize shape={nr}x{nc} order={}", ord_ch(order)));
+            out.nontrivial();
+            let mut w = World::<Tok>::new(out);
+            w.new_matrix(out, 0, order, nr, nc, 1);
+            w.reshape(out, 0, nc, nr);
+            w.reshape(out, 0, 1, nr * nc);
+            w.reshape(out, 0, nr, nc + 1);
+            w.reshape(out, 0, nr, nc);
+            w.resize(out, 0, nr - 1, nc);
+            w.resize(out, 0, nr + 1, nc + 1);
+            w.resize(out, 0, nc, nr);
+            w.resize(out, 0, 2, 3);
+            w.drop_reg(out, 0);
+        }
+    }
     let s = snapshot();
     if s.double_drops > 0 || s.live != 0 {
         out.oracle_fail(&format!("ledger at the end of the run: {} tokens still live, {} double drops", s.live, s.double_drops));
